@@ -87,6 +87,9 @@ class GQR(QR):
 
         # Initialize helper variables
         R = basis_matrix.conj().T.copy()
+        if not np.issubdtype(R.dtype, np.inexact):
+            # The reflectors are applied in place: integer data needs a float array
+            R = R.astype(float)
         p = np.arange(n_features)
         k = min(n_samples, n_features)
 
